@@ -31,6 +31,10 @@ def main():
             feats = re.search(r"--features[= ]+\"?([\w ,]+)\"?", demo)
             demo_cmd = ["cargo", "test", "--offline", "-q", "--test", "seed_demo"]
         hdr = demo[:1500]
+        mrun = re.search(r"^//\s*RUN:(.*)$", demo, re.M)
+        if mrun:
+            hdr = mrun.group(1)
+            feats = re.search(r"--features[= ]+\"?([\w ,]+)\"?", hdr)
         if "--release" in hdr:
             demo_cmd.append("--release")
         if "--no-default-features" in hdr:
